@@ -80,6 +80,7 @@ GROUPS["writer_step"] = dict(_WRITER_COMMON, **{
         ("step_flush_failing_sink", {"cost": 3, "what": "flush reports the error exactly once"}),
         ("step_check_io_error_failing_sink", {"cost": 1, "what": "check_io_error reports and clears"}),
         ("step_drop_failing_sink", {"cost": 2, "what": "drop with failing sink"}),
+        ("base_from_write", {"cost": 1, "what": "from_write establishes Inv (empty buffer with capacity, no error, not panicked); first byte + flush delivered exactly once"}),
         ("reach_write_through", {"kind": "reach", "cost": 5, "what": "vacuity twin"}),
     ],
 })
@@ -678,6 +679,19 @@ GROUPS["aig_c12"] = {
         ("renumber_one_gate_undefined", {"cost": 9, "what": "probe"}),
     ],
 }
+
+# second C12 probe (NOT part of any check): gate-free graphs (2 inputs, 1 latch, 1 output, 1 bad):
+# symex 620 s, then out of memory at 24 GB as well: the cost is in the Vec/iterator plumbing of
+# renumber_aig with symbolic map keys, not only in the DFS.
+GROUPS["aig_c12_gatefree"] = dict(GROUPS["aig_c12"], **{
+    "name": "aig_c12_gatefree",
+    "prefix": "aig::verif_c12g::",
+    "overlay": [("flussab-aiger/src/aig.rs", "c12g", "harness/aiger/aig_c12_gatefree.rs")],
+    "flags": ["--default-unwind", "8"],
+    "harnesses": [
+        ("renumber_gate_free", {"cost": 8, "what": "probe"}),
+    ],
+})
 
 GROUPS["parser_c15"] = {
     "name": "parser_c15",
